@@ -641,9 +641,22 @@ def do_step(w, ev):
                 os.remove(os.path.join(crop.location, "results", "xyz-result-%d.jbdmp" % args[0]))
             elif a == "corrupt":
                 p = os.path.join(crop.location, "results", "xyz-result-%d.jbdmp" % args[0])
-                data = open(p, "rb").read()
-                with open(p, "wb") as fh:
-                    fh.write(data[:max(1, len(data) // 2)])
+                kind = w.variant.get("corrupt_kind", "truncate")
+                if kind == "short":
+                    import pickle as _pk0
+                    if len(_pk0.load(open(p, "rb"))) < 2:
+                        kind = "truncate"      # never mix too-long with too-short results (they could cancel out)
+                if kind == "truncate":
+                    data = open(p, "rb").read()
+                    with open(p, "wb") as fh:
+                        fh.write(data[:max(1, len(data) // 2)])
+                else:
+                    # a readable result of the wrong length (what check_bad is documented to catch)
+                    import pickle as _pk
+                    good = _pk.load(open(p, "rb"))
+                    bad = tuple(good) + (good[0],) if kind == "long" else tuple(good)[:-1]
+                    with open(p, "wb") as fh:
+                        _pk.dump(bad, fh)
             elif a == "check_bad":
                 crop.check_bad()
             elif a == "reload":
@@ -801,7 +814,8 @@ def _job(job):
 def default_variants(case, idx):
     cfg = case["cfg"]
     k = idx
-    v = dict(seed1=[True, 3][k % 2], combos_dict=(k % 3 != 0), reload_from_disk=(k % 2 == 0))
+    v = dict(seed1=[True, 3][k % 2], combos_dict=(k % 3 != 0), reload_from_disk=(k % 2 == 0),
+             corrupt_kind=["truncate", "long", "short"][k % 3])
     if cfg["farmer"] == "none":
         v["result"] = ["scalar", "xy", "array", "str", "bool"][k % 5]
     else:
